@@ -1,5 +1,5 @@
 From Coq Require Import List ZArith Bool Lia ZifyBool.
-From DF Require Import Base.Str Base.Str_proofs Base.Value Base.Regex Base.Selector.
+From DF Require Import Base.Str Base.Str_proofs Base.Value Base.Regex Base.Regex_proofs Base.Selector.
 Import ListNotations.
 Open Scope Z_scope.
 
@@ -8,6 +8,15 @@ Proof. eexists. split; [reflexivity|]. intros; reflexivity. Qed.
 
 Lemma resolve_regex r names : exists m, resolve (SRegex r) names = Ok m /\ forall n, m n = fullmatch r n.
 Proof. eexists. split; [reflexivity|]. intros; reflexivity. Qed.
+
+(* ... i.e. exactly the names in the language of the expression *)
+Lemma resolve_regex_language r names :
+  exists m, resolve (SRegex r) names = Ok m /\ forall n, m n = true <-> Matches r n.
+Proof.
+  destruct (resolve_regex r names) as (m & E & H). exists m. split; [exact E|].
+  intros n. rewrite H. apply fullmatch_spec.
+Qed.
+
 
 Lemma resolve_list l names : exists m, resolve (SList l) names = Ok m /\ forall n, m n = true <-> In n l.
 Proof. eexists. split; [reflexivity|]. intros n. apply str_in_In. Qed.
